@@ -41,7 +41,8 @@ def parse_predicate_formula(formula):
     formula = get_dollar_replacer(formula).get_text()
     tree = ast.parse(formula, mode='eval')
     result = TreeConverter().visit(tree)
-    for part in tokenize.generate_tokens(io.StringIO(formula).readline):
+    # Use universal newlines, like ast.parse does: the tokenizer fails on a lone carriage return.
+    for part in tokenize.generate_tokens(io.StringIO(formula, newline=None).readline):
       if part[0] == tokenize.COMMENT and part[1].startswith('#'):
         result = ['Comment', result, part[1][1:].strip()]
         break
